@@ -67,3 +67,34 @@ static inline int h_spawn(int v, myth_thread_t * id, myth_func_t f, void * arg) 
 /* two frames between the thread function and myth_exit */
 static void __attribute__((noinline)) h_exit_l2(void * v) { volatile char pad[40]; pad[0] = 1; (void)pad; myth_exit(v); }
 static void __attribute__((noinline)) h_exit_l1(void * v) { volatile char pad[24]; pad[0] = 2; (void)pad; h_exit_l2(v); }
+
+/* ---- initialisation of synchronisation objects the way a user may do it: the object lives in memory that held something else before
+   (filled with 0x5A here), and the attribute argument is either NULL or an attribute object prepared with the public *_attr_init
+   function only (also in dirty memory).  `with_attr` alternates by program index so that both forms are explored. ---- */
+#define H_DIRTY(obj) memset((void *)(obj), 0x5A, sizeof *(obj))
+static inline void h_mutex_init(myth_mutex_t * m, int with_attr) {
+  H_DIRTY(m);
+  if (with_attr) { myth_mutexattr_t a; H_DIRTY(&a); myth_mutexattr_init(&a); myth_mutex_init(m, &a); myth_mutexattr_destroy(&a); }
+  else myth_mutex_init(m, 0);
+}
+static inline void h_cond_init(myth_cond_t * c, int with_attr) {
+  H_DIRTY(c);
+  if (with_attr) { myth_condattr_t a; H_DIRTY(&a); myth_condattr_init(&a); myth_cond_init(c, &a); myth_condattr_destroy(&a); }
+  else myth_cond_init(c, 0);
+}
+static inline void h_barrier_init(myth_barrier_t * b, int with_attr, unsigned n) {
+  H_DIRTY(b);
+  if (with_attr) { myth_barrierattr_t a; H_DIRTY(&a); myth_barrierattr_init(&a); myth_barrier_init(b, &a, n); myth_barrierattr_destroy(&a); }
+  else myth_barrier_init(b, 0, n);
+}
+static inline void h_join_counter_init(myth_join_counter_t * j, int with_attr, int n) {
+  H_DIRTY(j);
+  if (with_attr) { myth_join_counterattr_t a; H_DIRTY(&a); myth_join_counterattr_init(&a); myth_join_counter_init(j, &a, n); myth_join_counterattr_destroy(&a); }
+  else myth_join_counter_init(j, 0, n);
+}
+static inline void h_felock_init(myth_felock_t * f, int with_attr) {
+  H_DIRTY(f);
+  if (with_attr) { myth_felockattr_t a; H_DIRTY(&a); myth_felockattr_init(&a); myth_felock_init(f, &a); myth_felockattr_destroy(&a); }
+  else myth_felock_init(f, 0);
+}
+static inline void h_uncond_init(myth_uncond_t * u) { H_DIRTY(u); myth_uncond_init(u); }
